@@ -436,3 +436,118 @@ def case_tables(run):
     if res["violations"]:
         path = run.write_replay({"kind": "case-law-violation", "violations": res["violations"][:50]})
         run.violations.append(("strings.ToUpper/ToLower do not satisfy the laws assumed by the theorems", str(res["violations"][:3]), path, True))
+
+
+# ---------------------------------------------------------------------------------------
+# C12: the same history under two configurations, implementation against implementation
+# ---------------------------------------------------------------------------------------
+def _flip(ops, rnd):
+    """variant of a history: other cache/async/compression/extension/dir-name settings and the
+    index flag of every non-unique field inverted"""
+    out = json.loads(json.dumps(ops))
+    first = True
+    flipped = None
+    for op in out:
+        if op["op"] == "open":
+            op["lower"] = not op.get("lower", False)
+        if op["op"] == "create":
+            if first:
+                cons = {c["p"]: c["c"] for c in op.get("cons", [])}
+                paths = ["A", "B", "F", "G", "S", "Tm", "I8", "U16", "Emb.Y", "Emb.Z", "P.X", "P.W", "P.Q.D"]
+                new = []
+                for p in paths:
+                    c = cons.get(p, "")
+                    if "u" in c:
+                        new.append({"p": p, "c": c})
+                        continue
+                    rest = c.replace("i", "")
+                    c2 = rest if "i" in c else rest + "i"
+                    if c2:
+                        new.append({"p": p, "c": c2})
+                flipped = new
+                first = False
+            op["cons"] = flipped
+            op["cache"] = not op.get("cache", False)
+            op["gz"] = not op.get("gz", False)
+            op["ext"] = ".json" if op.get("ext") != ".json" else ".obj"
+            if op.get("athr", 0) > 0:
+                op["athr"], op["ams"] = 0, 0
+            else:
+                op["athr"], op["ams"] = 1000, 3600 * 1000
+    return out
+
+
+def _norm_result(call, res):
+    op = call.split(" ")[0]
+    if op in ("collect", "all"):
+        if "] " in res:
+            objs, r = res.rsplit("] ", 1)
+            return " ".join(sorted(objs.lstrip("[").split())) + " | " + r
+    return res
+
+
+def config_pairs(run):
+    h = run.harness
+    n = 60 if run.tier == "quick" else 800
+    base = os.path.join(run.scratch, "pairs")
+    r = sh([h, "-profile", "pairs", "-seed", str(run.seed), "-n", str(n), "-out", base, "-root", base + ".db"])
+    ops = [json.loads(l) for l in open(base + ".ops")]
+    rnd = random.Random(run.seed)
+    with open(base + "B.in", "w") as fh:
+        for o in ops:
+            fh.write(json.dumps(_flip(o, rnd)) + "\n")
+    r2 = sh([h, "-replay", base + "B.in", "-out", base + "B", "-root", base + "B.db"])
+    if r.returncode != 0 or r2.returncode != 0:
+        path = run.write_replay({"kind": "harness-crash", "profile": "pairs", "output": (r.stdout + r2.stdout)[-2000:]})
+        run.violations.append(("process crash while executing histories", (r.stdout + r2.stdout)[-300:], path, True))
+        return
+
+    def split(path):
+        hs, cur = [], None
+        for l in open(path).read().splitlines():
+            if l.startswith("# history"):
+                cur = []
+                hs.append(cur)
+            elif cur is not None and not l.startswith("casemap"):
+                cur.append(l)
+        return hs
+    A, B = split(base + ".trace"), split(base + "B.trace")
+    # both variants also have to agree with the model
+    for tag, tr in (("A", base + ".trace"), ("B", base + "B.trace")):
+        v = model_verdicts(open(tr).read().splitlines())
+        bad = [(l, x) for l, x in zip(open(tr).read().splitlines(), v) if x != "="]
+        if bad:
+            path = run.write_replay({"kind": "correspondence-disagreement", "profile": "pairs" + tag, "first": bad[0]})
+            run.violations.append(("model and implementation disagree (pairs " + tag + ")", f"{bad[0][0][:200]} | model: {bad[0][1][:150]}", path, True))
+    stats = {"histories": len(A), "lines_compared": 0, "differences": 0}
+    skip = ("create", "open", "ls", "disk", "fsops", "control", "aidx", "reopen", "close")
+    for hi, (ta, tb) in enumerate(zip(A, B)):
+        ia = [l for l in ta if not l.startswith(skip)]
+        ib = [l for l in tb if not l.startswith(skip)]
+        diff = None
+        if len(ia) != len(ib):
+            diff = ("different number of calls executed", str(len(ia)), str(len(ib)))
+        else:
+            for la, lb in zip(ia, ib):
+                ca, ra = la.split(" => ", 1) if " => " in la else (la, "")
+                cb, rb = lb.split(" => ", 1) if " => " in lb else (lb, "")
+                stats["lines_compared"] += 1
+                if ca.split(" ")[0] in ("search", "and", "or", "len") and (ra.endswith("ok") and rb.endswith("ok")):
+                    pass
+                if _norm_result(ca, ra) != _norm_result(cb, rb):
+                    # the length of a failed search is unspecified
+                    if ca.split(" ")[0] in ("search", "and", "or", "len") and ra.split(" ")[-1] == rb.split(" ")[-1] and ra.split(" ")[-1] != "ok":
+                        continue
+                    diff = (ca, ra, rb)
+                    break
+        run.hashes.add("pair-" + hashlib.sha1("\n".join(ia).encode()).hexdigest())
+        if diff:
+            stats["differences"] += 1
+            if stats["differences"] <= 3:
+                path = run.write_replay({"kind": "configuration-dependence", "property": "C12", "call": diff[0],
+                                         "result_config_A": diff[1], "result_config_B": diff[2],
+                                         "ops_A": ops[hi], "ops_B": _flip(ops[hi], rnd), "trace_A": ta[:400], "trace_B": tb[:400]})
+                run.violations.append(("the same history answers differently under two configurations",
+                                       f"{diff[0][:150]}: {diff[1][:120]} vs {diff[2][:120]}", path, True))
+    run.cov["config_pairs"] = stats
+    run.cov["evaluations"] = run.cov.get("evaluations", 0) + len(A)
